@@ -517,6 +517,46 @@ func (rpcapi *ClusterRPCAPI) PinsRaw(ctx context.Context, in struct{}, out *[]*a
 	}
 	wg.Wait()
 	return root, nil'''),
+ # round-7 rules, second instance each
+ ('C17-hand-crdt-shutdown-unmarked', 'consensus/crdt/consensus.go',
+  '''	css.shutdown = true
+	close(css.rpcReady)
+	return nil''', '''	close(css.rpcReady)
+	return nil'''),
+ ('C04-hand-unpinclusterdag-skips-failed-unpin', 'cluster.go',
+  '''		err = c.consensus.LogUnpin(ctx, api.PinCid(ci))
+		if err != nil {
+			return err
+		}
+	}
+	return nil
+}
+
+// PinUpdate pins''', '''		err = c.consensus.LogUnpin(ctx, api.PinCid(ci))
+		if err != nil {
+			logger.Warn(err)
+			return nil
+		}
+	}
+	return nil
+}
+
+// PinUpdate pins'''),
+ ('C16-hand-pinargs-depth0-recursive', 'ipfsconn/ipfshttp/ipfshttp.go',
+  '''	case maxDepth == 0:
+		q.Set("recursive", "false")''', '''	case maxDepth == 0:
+		q.Set("recursive", "true")'''),
+ ('C13-hand-toquery-cidversion-only-nonzero', 'api/add.go',
+  '''	query.Set("cid-version", fmt.Sprintf("%d", p.CidVersion))''', '''	if p.CidVersion != 0 {
+		query.Set("cid-version", fmt.Sprintf("%d", p.CidVersion))
+	}'''),
+ ('C09-hand-checkall-skips-when-alerted', 'monitor/metrics/checker.go',
+  '''	for _, metric := range mc.metrics.AllMetrics() {
+		if mc.FailedMetric(metric.Name, metric.Peer) {''', '''	for _, metric := range mc.metrics.AllMetrics() {
+		if metric.Discard() {
+			continue
+		}
+		if mc.FailedMetric(metric.Name, metric.Peer) {'''),
 ]
 
 
